@@ -792,7 +792,7 @@ theorem connBind_sum (n : NetSt) (name : String) (s : TcpSock) (target : Ep) :
 theorem connDial_sum (n : NetSt) (name : String) (target : Ep) (h : Nat) (e0 : List NEff) (s : TcpSock)
     (hs : n.tcp? name = some s) :
     let r := connDial n name target h e0
-    (r.1 = n ∧ r.2 = e0 ++ [.post { h := h, ec := .afNoSupport }])
+    (s.bound.isV4 ≠ target.isV4 ∧ r.1 = n ∧ r.2 = e0 ++ [.post { h := h, ec := .afNoSupport }])
     ∨ (¬ n.Listening target
         ∧ r.1 = n.setTcp name { s with mss := n.cfg.pathMtu s.bound.addr target.addr,
                                        cwnd := n.cfg.pathMtu s.bound.addr target.addr * 2, chan := none }
@@ -806,7 +806,8 @@ theorem connDial_sum (n : NetSt) (name : String) (target : Ep) (h : Nat) (e0 : L
   unfold connDial
   simp only [hs]
   split
-  · exact Or.inl ⟨rfl, rfl⟩
+  · rename_i hfam
+    exact Or.inl ⟨by simpa using hfam, rfl, rfl⟩
   · right
     by_cases hl : n.Listening target
     · right
